@@ -333,16 +333,16 @@ def _(c):
 # OEM
 
 def _grid_oem(tier, rng):
-    """1..3 ephemerides of 1..12 points (1, 2, 3, 9, 12 explicitly) x 0..N covariances {none, first point only, every other point, all} in {own frame, TNW, QSW} x frames x
+    """1..3 ephemerides of 1..12 points (1, 2, 3, 9, 12 explicitly) x 0..N covariances {none, first point only, every other point, all} in {own frame, TNW, QSW, a different one from point to point} x frames x
     scales x interpolation {lagrange order 2..8, linear}: each factor on its own plus a seeded sample (quick 60, thorough 600)"""
     n = 60 if tier == "quick" else 600
     base = {"segments": 1, "points": 9, "covs": 0, "covframe": 1, "frame": 0, "scale": 0, "method": 0, "order": 8, "k": 0}
-    singles = [dict(segments=i) for i in (1, 2, 3)] + [dict(points=i) for i in (1, 2, 3, 9, 12)] + [dict(covs=i, covframe=j) for i in (1, 2, 3) for j in (1, 2, 3)] \
+    singles = [dict(segments=i) for i in (1, 2, 3)] + [dict(points=i) for i in (1, 2, 3, 9, 12)] + [dict(covs=i, covframe=j) for i in (1, 2, 3) for j in (1, 2, 3, 4)] \
         + [dict(points=1, covs=1)] + [dict(frame=i) for i in range(11)] + [dict(scale=i) for i in range(6)] + [dict(method=1)] + [dict(order=i) for i in (2, 5, 7)]
     for s in singles:
         yield {**base, **s}
     for k in range(n):
-        yield {"segments": rng.randrange(1, 4), "points": rng.choice([1, 2, 3, 5, 9, 12]), "covs": rng.randrange(4), "covframe": rng.randrange(1, 4), "frame": rng.randrange(11),
+        yield {"segments": rng.randrange(1, 4), "points": rng.choice([1, 2, 3, 5, 9, 12]), "covs": rng.randrange(4), "covframe": rng.randrange(1, 5), "frame": rng.randrange(11),
                "scale": rng.randrange(6), "method": rng.randrange(2), "order": rng.randrange(2, 9), "k": k}
 
 
@@ -369,6 +369,9 @@ def _(c):
             covs = c.integer("covs")
             if covs == 3 or (covs == 1 and i == 0) or (covs == 2 and i % 2 == 1):
                 cf = c.integer("covframe")
+                if cf == 4:
+                    # covariances in different frames within one ephemeris, one in the state's own frame following one that is not
+                    cf = [3, 1, 2, 1, 3, 1][i % 6]
                 _attach_cov(sv, cf, k + i)
             pts.append(sv)
         e = Ephem(pts, method="linear" if c.integer("method") else "lagrange", order=c.integer("order"))
